@@ -24,7 +24,8 @@ def step (s : Core) (w : List String) : Core × String :=
   match w with
   | ["gen.reset"] => (empty, "ok")
   | ["gen.und", id, c, a, h] => ({ s with unds := s.unds ++ [⟨id, parseInt! c, parseInt! a, parseInt! h⟩] }, "ok")
-  | ["gen.q", p, e, it] => ({ s with queues := s.queues ++ [⟨parseNat! p, parseInt! e, it⟩] }, "ok")
+  | ["gen.q", p, e, it] => ({ s with queues := s.queues ++ [⟨parseNat! p, parseInt! e, it, []⟩] }, "ok")
+  | ["gen.q", p, e, it, recs] => ({ s with queues := s.queues ++ [⟨parseNat! p, parseInt! e, it, recs.splitOn "+"⟩] }, "ok")
   | ["gen.cur", op, cons] => ({ s with curKeys := s.curKeys ++ [(op, cons)] }, "ok")
   | ["gen.prev", op, cons] => ({ s with prevKeys := s.prevKeys ++ [(op, cons)] }, "ok")
   | ["gen.rev", cons, op] => ({ s with reverse := s.reverse ++ [(cons, op)] }, "ok")
